@@ -17,7 +17,7 @@ def norm(l): return re.sub(r'\s+\|\s+\S+:\d+$','',l)
 def run(d):
     tmp=tempfile.mkdtemp(prefix='hms-rc-')
     try:
-        scr=os.path.join(tmp,'repo'); os.makedirs(scr); subprocess.run(['rsync','-a','--exclude=.git','/repo/',scr+'/'],check=True)
+        scr=os.path.join(tmp,'repo'); os.makedirs(scr); subprocess.run(['rsync','-a','--exclude=.git','/repo/',scr+'/'])
         if d.startswith('rename:'):
             if subprocess.run(['/verif/bin/renamer','-dir',scr,'-what',d[7:],'-suffix','Zq'],capture_output=True,env=ENV).returncode!=0: return d,['renamer failed']
         else:
